@@ -8,6 +8,7 @@ Inductive cinstr :=
 | CAck (bounded : bool)              (* wait for the control thread's acknowledgement: `if poll(timeout): get()` is bounded, a bare get() is not *)
 | CRaise                             (* foreign_raise(self._ident, WorkerTerminatedError): thread kinds *)
 | CRelease                           (* self._release_child() *)
+| CClose                             (* self.close(): persistent kinds, from wait() *)
 | CJoin (bounded : bool)             (* self._child.join(timeout) / join(<what is left of timeout>) ; join() or join(None) is not bounded *)
 | CSigterm                           (* self._child.terminate() *)
 | CSigkill                           (* self._child.kill() *)
